@@ -48,9 +48,31 @@ def deep_real(x):
     return x
 
 
+def enum(i, lo, hi):
+    """Concrete value of the (symbolic) int i, lo <= i < hi, found by bisection: every comparison is a
+    solver-decided fork, the leaves partition [lo, hi) with no repeats (CrossHair's own realize() walks a
+    linear chain of != constraints and revisits values)."""
+    assume(lo <= i)
+    assume(i < hi)
+    while hi - lo > 1:
+        mid = (lo + hi) // 2
+        if i < mid:
+            hi = mid
+        else:
+            lo = mid
+    return lo
+
+
+def fork(b):
+    """Concrete value of a (symbolic) bool."""
+    if b:
+        return True
+    return False
+
+
 def pick(table, i):
-    """table[i] with the index realised first (a table dimension, not arithmetic)."""
-    return table[real(i)]
+    """table[i] with the index made concrete first (a table dimension, not arithmetic)."""
+    return table[enum(i, 0, len(table))]
 
 
 def raises_(exc, fn, *a, **kw):
@@ -82,6 +104,8 @@ class Claim(object):
         inductive=False,
         reach=None,
         group=None,
+        exact_int_div=False,
+        probe_only=False,
     ):
         self.name = name  # unique within the property+tier
         self.fn = fn
@@ -95,6 +119,8 @@ class Claim(object):
         self.inductive = inductive
         self.reach = reach
         self.group = group or fn.__name__
+        self.exact_int_div = exact_int_div
+        self.probe_only = probe_only
 
     def sig(self):
         sig = inspect.signature(self.fn)
